@@ -185,6 +185,10 @@ pub struct ExecEnv {
     /// answer for requests beyond the script
     pub default_answer: Answer,
     pub sticky: Option<Answer>,
+    /// isolation runs: a freed block's address is handed out again to the next request with the same layout
+    /// (what size-class allocators do), also across executions of this process
+    pub reuse_exact: bool,
+    pub graveyard: Vec<(u8, usize, usize, usize)>,
     pub policy: Policy,
     pub reqs: Vec<ReqLog>,
     pub frees: Vec<FreeLog>,
@@ -212,6 +216,8 @@ impl ExecEnv {
             script_len: 0,
             default_answer: Answer::Default,
             sticky: None,
+            reuse_exact: false,
+            graveyard: Vec::new(),
             policy: Policy { cap: 1 << 20, refuse_all: false },
             reqs: Vec::with_capacity(64),
             frees: Vec::with_capacity(64),
@@ -364,14 +370,29 @@ impl ExecEnv {
                 }
                 a
             };
+            let addr = if self.reuse_exact {
+                match self.graveyard.iter().rposition(|g| g.0 as usize == arena && g.1 == size && g.2 == align) {
+                    Some(i) => self.graveyard.remove(i).3,
+                    None => {
+                        // a fresh placement: forget remembered addresses it covers
+                        let (lo, hi) = (addr - REDZONE, addr + size + REDZONE);
+                        self.graveyard.retain(|g| g.3 + g.1 <= lo || g.3 >= hi);
+                        addr
+                    }
+                }
+            } else {
+                addr
+            };
             let end = addr + size + REDZONE;
             if end <= slab.base + slab.size && size > 0 {
                 // fill red zones (everything between the previous block and this one, and after)
                 let gap_lo = slab.base + slab.cursor;
-                std::ptr::write_bytes(gap_lo as *mut u8, FILL_RED, addr - gap_lo);
+                if addr >= gap_lo {
+                    std::ptr::write_bytes(gap_lo as *mut u8, FILL_RED, addr - gap_lo);
+                }
                 fill_block(addr, size, FILL_FRESH);
                 std::ptr::write_bytes((addr + size) as *mut u8, FILL_RED, REDZONE);
-                slab.cursor = addr + size - slab.base;
+                slab.cursor = slab.cursor.max(addr + size - slab.base);
                 granted = Some(addr);
                 let serial = self.next_serial;
                 self.next_serial += 1;
@@ -432,6 +453,9 @@ impl ExecEnv {
                 }
                 b.freed_step = Some(step);
                 fill_block(b.base, b.size, FILL_FREED);
+                if self.reuse_exact {
+                    self.graveyard.push((b.arena, b.size, b.align, b.base));
+                }
                 let fl = FreeLog { serial: b.serial, arena: b.arena, base: b.base, size: b.size };
                 self.frees.push(fl);
             }
@@ -605,12 +629,17 @@ unsafe impl GlobalAlloc for Env {
 
     unsafe fn realloc(&self, ptr: *mut u8, layout: Layout, new_size: usize) -> *mut u8 {
         if in_region(ptr as usize) {
-            let e = ENV.with(|e| e.get());
-            if !e.is_null() {
-                let _g = InEnv::enter();
-                (*e).faults.push(EnvFault::SlabRealloc { addr: ptr as usize });
+            // a chunk is resized: served as a new request (answered like any other), copy, release of the old block
+            let new_layout = match Layout::from_size_align(new_size, layout.align()) {
+                Ok(l) => l,
+                Err(_) => return std::ptr::null_mut(),
+            };
+            let np = self.alloc(new_layout);
+            if !np.is_null() {
+                std::ptr::copy_nonoverlapping(ptr, np, layout.size().min(new_size));
+                self.dealloc(ptr, layout);
             }
-            return std::ptr::null_mut();
+            return np;
         }
         System.realloc(ptr, layout, new_size)
     }
